@@ -6,8 +6,10 @@
 (* written by pgverif/keypath.py).  Every law prints                       *)
 (*   <<"LAW", name, cases, bad>>      and, per class of violating cases,   *)
 (*   <<"VIOL", name, class, count, sample indices>>                        *)
-(* The universes are recomputed here from the same constants and compared  *)
-(* with what came back (<<"COVER", ...>>), so the harness cannot skip.     *)
+(* The universes are recomputed here from the same constants: what came    *)
+(* back must lie inside them and the number of distinct elements is        *)
+(* printed (<<"COVER", ...>>; the harness adds the chunks up and compares   *)
+(* with the size KeyPathModel.tla reported), so nothing can be skipped.    *)
 (***************************************************************************)
 EXTENDS KeyPathUniv, Json, IOUtils, SequencesExt, FiniteSetsExt
 CONSTANTS Part
@@ -39,7 +41,7 @@ ParseCls(i) == LET e == Obs.parse[i] IN
                IF ~Balanced(e.s) THEN "unbalanced" ELSE IF e.ok THEN "keys" ELSE "rejected"
 ParseDontCareDiff(u) == Cardinality({i \in 1..Len(Obs.parse) : ~Determined(Obs.parse[i].s) /\ ObsParse(Obs.parse[i]) # Parse(Obs.parse[i].s)})
 ParseLaws(u) ==
-  /\ PrintT(<<"COVER", "parse", {Obs.parse[i].s : i \in 1..Len(Obs.parse)} = StrU(0),
+  /\ PrintT(<<"COVER", "parse", {Obs.parse[i].s : i \in 1..Len(Obs.parse)} \subseteq StrU(0), Cardinality({Obs.parse[i].s : i \in 1..Len(Obs.parse)}),
               "determined", Cardinality({i \in 1..Len(Obs.parse) : Determined(Obs.parse[i].s)}),
               "dontcare_diff", ParseDontCareDiff(0)>>)
   /\ Report("parse_table", 1..Len(Obs.parse), ParseBad, ParseCls)
@@ -53,7 +55,7 @@ RtCls(i) == LET e == Obs.rt[i] IN
             ELSE "plain_str"
 FmtDiff(u) == Cardinality({i \in 1..Len(Obs.rt) : Obs.rt[i].f # Format(Obs.rt[i].p)})
 RoundTripLaws(u) ==
-  /\ PrintT(<<"COVER", "rt", {Obs.rt[i].p : i \in 1..Len(Obs.rt)} = PathU(0), "format_differs_from_reference", FmtDiff(0)>>)
+  /\ PrintT(<<"COVER", "rt", {Obs.rt[i].p : i \in 1..Len(Obs.rt)} \subseteq PathU(0), Cardinality({Obs.rt[i].p : i \in 1..Len(Obs.rt)}), "format_differs_from_reference", FmtDiff(0)>>)
   /\ Report("parse_format", 1..Len(Obs.rt), RtBad, RtCls)
 
 \* ------------------------------------------------------------------ algebra ---
@@ -148,7 +150,7 @@ ProbeBad(c) == LET pr == E(c[1]).probes[c[3]] IN pr[c[2]] # (IF LookupV(E(c[1]).
 ProbeCls(c) == IF c[2] = "plain" /\ IntKeyAtDict(E(c[1]).v, E(c[1]).probes[c[3]].p)
                THEN "plain_dict_int_key_lookup" ELSE c[2]
 ValueLaws(u) ==
-  /\ PrintT(<<"COVER", "values", {E(i).v : i \in 1..NV(0)} = ValU(0), NV(0), "domain_ok", \A i \in 1..NV(0) : E(i).dom = InFlattenDomain(E(i).v),
+  /\ PrintT(<<"COVER", "values", {E(i).v : i \in 1..NV(0)} \subseteq ValU(0), Cardinality({E(i).v : i \in 1..NV(0)}), "domain_ok", \A i \in 1..NV(0) : E(i).dom = InFlattenDomain(E(i).v),
               "canon_outside_domain_differs", CanonOutside(0)>>)
   /\ Report("visit_log", LogCases(0), LogBad, LogCls)
   /\ Report("flatten_paths", 1..NV(0), FlatBad, Plain)
